@@ -43,7 +43,8 @@ EN = FT("en", "En", "En", "en", [0, 1, 2])  # variant index
 OP = FT("op", "&'a Op", "u32", "ptr", [0x1000, 0xFFFFFFF0])
 OOP = FT("oop", "Option<&'a Op>", "u32", "ptr", [None, 0x2000])
 SL8 = FT("sl8", "DiplomatSlice<'a, u8>", "[u32; 2]", "slice", [[], [1, 2, 3]])
-S16 = FT("s16", "DiplomatStr16Slice<'a>", "[u32; 2]", "slice", ["", "aé€"])
+# UTF-16 views are unvalidated: an unpaired surrogate and a leading U+FEFF are ordinary code units and must survive
+S16 = FT("s16", "DiplomatStr16Slice<'a>", "[u32; 2]", "slice", ["", "aé€", "\ufeffab", "a\ud800", "\udc00\ud83d"])
 IN1 = FT("in1", "In1", "In1", "struct", None, inner=[("x", U8)])
 IN2 = FT("in2", "In2", "In2", "struct", None, inner=[("a", U8), ("b", U32)])
 IN3 = FT("in3", "In3", "In3", "struct", None, inner=[("p", U64), ("q", U8), ("r", U16)])
@@ -207,7 +208,7 @@ def place(ft, v, off, lay, out, slices):
             out[off + i] = b
     elif ft.kind == "slice":
         slices.append((off, ft, v))
-        n = len(v) if not isinstance(v, str) else len(v.encode("utf-16-le")) // 2
+        n = len(v) if not isinstance(v, str) else len(v.encode("utf-16-le", "surrogatepass")) // 2
         for i, b in enumerate(struct.pack("<I", n)):
             out[off + 4 + i] = b
     elif ft.kind == "struct":
@@ -249,7 +250,7 @@ def scalars_of(ft, v, base, lay, acc):
         acc.append((base, sz, al, ft.kind, v))
     elif ft.kind == "slice":
         acc.append((base, 4, 4, "sliceptr", v))
-        n = len(v) if not isinstance(v, str) else len(v.encode("utf-16-le")) // 2
+        n = len(v) if not isinstance(v, str) else len(v.encode("utf-16-le", "surrogatepass")) // 2
         acc.append((base + 4, 4, 4, "u32", n))
     elif ft.kind == "struct":
         l = lay[ft.oracle]
@@ -282,7 +283,7 @@ def _slots(ft, v, lay):
     if ft.kind in SCALARS:
         return [{"v": js_arg(ft.kind, v), "k": ft.kind}]
     if ft.kind == "slice":
-        n = len(v) if not isinstance(v, str) else len(v.encode("utf-16-le")) // 2
+        n = len(v) if not isinstance(v, str) else len(v.encode("utf-16-le", "surrogatepass")) // 2
         return [{"sliceptr": v}, {"v": n, "k": "u32"}]
     if ft.kind == "struct":
         l = lay[ft.oracle]
